@@ -412,7 +412,13 @@ func (sc *SizeCalculator) estimatePosition(size int, unit SizeUnit) int {
 	case SizeUnitCharacters:
 		return size
 	case SizeUnitTokens:
-		return int(float64(size) / sc.config.TokensPerChar)
+		// (the same default as EstimateTokens: a configuration that does
+		// not set the ratio leaves it zero)
+		ratio := sc.config.TokensPerChar
+		if ratio <= 0 {
+			ratio = 0.25
+		}
+		return int(float64(size) / ratio)
 	case SizeUnitWords:
 		return size * 6 // Rough estimate: 6 chars per word
 	case SizeUnitSentences:
